@@ -16,12 +16,12 @@ namespace Xp.C01
 /-- what a reconcile is allowed to assume about its nondeterministic inputs -/
 def ModeOK : Mode → Prop
   | .fn out ch => OutOK out ∧ ChOK ch     -- the function output is a map with stable kinds (H1); names generated are non-empty; loop orders enumerate their map
-  | .pt tmpl fresh => TmplOK tmpl fresh   -- template names are distinct; names generated are non-empty
+  | .pt tmpl fresh _ => TmplOK tmpl fresh   -- template names are distinct; names generated are non-empty
 
 theorem safe_reconcile {s : St} (hg : Good s) (m : Mode) (hm : ModeOK m) : Safe sem Good (reconcile m) s := by
   cases m with
   | fn out ch => exact safe_reconcile_fn hg out ch hm.1 hm.2
-  | pt tmpl fresh => exact safe_reconcile_pt hg tmpl fresh hm
+  | pt tmpl fresh ver => exact safe_reconcile_pt hg tmpl fresh ver hm
 
 /-- **At every instant** of a reconcile — after any prefix of its API calls, under any
 fault plan (error, conflict, crash before / after the call took effect at any call
@@ -85,9 +85,10 @@ fault-free reconcile, in whatever order it iterates its maps, succeeds and chang
 object: the store it leaves is identical (references, objects, the XR's resourceVersion).
 (The P&T composer's quiescence is checked on the real code by the resourceVersion monitor
 only.) -/
-theorem quiescent (s : St) (names : List Named) (h : Settled s names) (ch : Choices) (hc : ChOK ch) :
+theorem quiescent (s : St) (names : List Named) (h : Settled s names) (ch : Choices) (hc : ChOK ch)
+    (hv : ch.ver = s.refsVer) :
     run sem Plan.allOk 0 (reconcile (.fn (fun _ => .desired (names.map (·.d))) ch)) s = (s, some .success) :=
-  quiescent_fn h ch hc
+  quiescent_fn h ch hc hv
 
 /-! ### non-vacuity: the hypotheses are met by non-trivial states and inputs -/
 
@@ -97,7 +98,7 @@ def settledStore : St :=
     objs := [⟨"KB", "xr-def", "b", .xr, true, false, 0, true⟩, ⟨"KA", "xr-abc", "a", .xr, false, false, 1, true⟩] }
 
 example : Settled settledStore [⟨⟨"a", "KA", 1, true⟩, "xr-abc", false⟩, ⟨⟨"b", "KB", 0, false⟩, "xr-def", false⟩] := by
-  refine ⟨⟨by decide, by decide, by decide, ?_, by intro o h; cases h⟩, rfl, by decide, by decide, by decide, ?_,
+  refine ⟨⟨by decide, by decide, by decide, ?_, by intro o h; cases h⟩, rfl, by decide, by decide, by decide, by decide, ?_,
     by simp [settledStore, refsOf, nkey, List.mergeSort, List.MergeSort.Internal.splitInTwo, refLt]⟩
   · intro o1 h1 o2 h2 _ _ ha _
     simp only [settledStore, List.mem_cons, List.mem_nil_iff, or_false] at h1 h2
@@ -125,7 +126,7 @@ example : Good exampleStore := by
 def exampleOut : Obs → FnOut := fun _ => .desired [⟨"a", "KA", 2, true⟩, ⟨"c", "KA", 0, false⟩]
 
 example : ModeOK (.fn (fun obs => if (obsLookup obs "a").all (·.kind = "KA") ∧ (obsLookup obs "c").all (·.kind = "KA")
-    then exampleOut obs else .failed) ⟨["xr-new"], id, id⟩) := by
+    then exampleOut obs else .failed) ⟨"v1", ["xr-new"], id, id⟩) := by
   refine ⟨⟨?_, ?_⟩, ⟨by decide, fun _ _ => Iff.rfl, fun _ _ => Iff.rfl⟩⟩
   · intro obs ds h
     split at h
